@@ -699,6 +699,9 @@ func (f *Frame) execInstr(ins ssa.Instruction, reach string, h *Heap) string {
 	switch i := ins.(type) {
 	case *ssa.DebugRef:
 		if id, ok := i.Expr.(*ast.Ident); ok && !i.IsAddr {
+			if o := i.Object(); o != nil && o.Pkg() != nil && o.Parent() == o.Pkg().Scope() {
+				break // a package-level variable is not a local name
+			}
 			if f.dbg == nil {
 				f.dbg = map[string]ssa.Value{}
 			}
